@@ -116,6 +116,10 @@ class VipMgr:
                 _link_st = os.stat(link)
             except OSError as err:
                 if err.errno == errno.ENOENT:
+                    if not os.path.islink(link) or os.path.exists(link):
+                        # Not dangling: released since it was listed, and the
+                        # name may belong to another owner by now.
+                        continue
                     _LOGGER.warning('Reclaimed: %r', link)
                     try:
                         os.unlink(link)
